@@ -285,8 +285,10 @@ def run(ctx: Ctx):
     # close() runs the closing routine exactly in write mode, then closes the handle
     pmcl = parents_map(close.node)
     cw = [c for c in calls_in(close.node) if call_name(c) == closing.name]
-    gcl = [(norm(t), pol) for t, pol in guards_of(cw[0], pmcl)] if cw else []
-    ctx.ob("R14.3", close, cw[0] if cw else "closing call", gcl in ([("'w' in self._file.mode", True)], [("'r' in self._file.mode", False)]),
+    from ..cfg import cguards_of, ctext
+    gcl = cguards_of(cw[0], pmcl) if cw else []
+    tr_, pr_ = ctext("'r' in self._file.mode")
+    ctx.ob("R14.3", close, cw[0] if cw else "closing call", gcl in ([ctext("'w' in self._file.mode")], [(tr_, not pr_)]),
            "closing a file opened for writing always writes the closing information (count back-fill and box line)",
            node=cw[0] if cw else close.node)
     # no finaliser of a coordinate-file object completes a file the user never closed
@@ -296,8 +298,16 @@ def run(ctx: Ctx):
         d = k.methods.get("__del__")
         if d is not None and any(call_name(c) in ("close", closing.name, "__exit__") for c in calls_in(d.node)):
             fin.append(d)
+    # ... nor a callback registered with atexit / weakref.finalize
+    for k in parser_classes:
+        for m_ in k.methods.values():
+            for c in calls_in(m_.node):
+                if call_name(c) in ("register", "finalize") and attr_chain(c.func) in ("atexit.register", "weakref.finalize") \
+                        and any(isinstance(x, ast.Attribute) and x.attr in ("close", closing.name, "__exit__")
+                                for a_ in c.args for x in ast.walk(a_)):
+                    fin.append(m_)
     ctx.ob("R14.3", fin[0] if fin else close, "finalisers of the writer that close it: %s" % [d.qual for d in fin], not fin,
-           "a writer abandoned before close() stays incomplete: no __del__ of the file object calls close() (which would "
+           "a writer abandoned before close() stays incomplete: no __del__ of the file object (and no atexit / weakref.finalize callback) calls close() (which would "
            "back-fill the count and append the box line, turning a partial file into an accepted one)",
            node=fin[0].node if fin else close.node)
     # last write
